@@ -113,6 +113,13 @@ def fix(v):
     return NULL if v is None else v
 
 
+# databases without ties for the engine-differential pass: (t1, t2, t3) rows, NULL encoded as in the semantic pass
+DIFF_DBS = [[[[1, 5], [2, NULL], [NULL, 7], [3, 6]], [[1, 1], [2, 2], [4, NULL]], [[5, 1], [6, 2]]],
+            [[[3, 1], [1, 2], [2, 3]], [[1, 3], [3, 1]], [[1, 1]]],
+            [[[NULL, NULL], [1, 1]], [[1, NULL]], [[NULL, 2]]],
+            [[[2, 9], [1, 8], [4, NULL], [3, 7], [NULL, 6]], [[2, 2], [3, 3]], [[9, 1], [8, 2], [7, 3]]]]
+
+
 def _spellings(sql, rend=None):
     """The same target named in another way (the alias, a sqlalchemy dialect class, mssql / oracle too): the rendering must be
     the same text as for the dialect's name."""
@@ -163,7 +170,10 @@ def _render(sql):
             out['orig'] = sem.query(tree)
     except sem.Unsupported as e:
         out['status'] = 'unsupported:%s' % e
-        out['spelling_diffs'] = _spellings(sql)[1]
+        rend_, out['spelling_diffs'] = _spellings(sql)
+        # outside the reference semantics (window functions ..): kept for the engine-differential pass below
+        if type(tree).__name__ == 'Select' and isinstance(rend_.get('sqlite'), str) and not rend_['sqlite'].startswith('EXC:'):
+            out['rendered_outside_semantics'] = rend_['sqlite']
         return out
     rend = {}
     for d in ('sqlite', 'mysql', 'postgresql'):
@@ -228,9 +238,32 @@ def run(ctx):
     status = {}
     ndb = 12 if thorough else 5
     undecided_other = 0
+    n_diff = [0]
     for r in rendered:
         st = r['status'].split(':')[0]
         status[st] = status.get(st, 0) + 1
+        if r.get('rendered_outside_semantics'):
+            # statements the TLA+ semantics does not cover: the engine itself is the reference -- original and rendered text on
+            # sqlite3 over databases WITHOUT ties (all values distinct, one NULL per column), compared as bags (as lists when the
+            # statement ends in ORDER BY).  Weaker than the semantic judgement (one engine, four databases); stated in the evidence.
+            for asg in DIFF_DBS:
+                try:
+                    want_ = [[fix(v) for v in row] for row in make_db(asg).execute(r['sql'])]
+                except sqlite3.Error:
+                    break
+                try:
+                    got_ = [[fix(v) for v in row] for row in make_db(asg).execute(r['rendered_outside_semantics'])]
+                except sqlite3.Error as e:
+                    got_ = 'sqlite error: %s' % e
+                ordered_ = ' order by ' in r['sql'].lower().rsplit(')', 1)[-1]
+                n_diff[0] += 1
+                same_ = got_ == want_ if ordered_ else (isinstance(got_, list) and sorted(map(repr, got_)) == sorted(map(repr, want_)))
+                if not same_:
+                    ctx.violation('meaning-changed:engine-differential:%s' % ('window' if ' over ' in r['sql'].lower() else 'other'),
+                                  'sqlite3 returns other rows for the rendered text than for the original text',
+                                  {'sql': r['sql'], 'rendered': r['rendered_outside_semantics'], 'database': asg, 'original_rows': want_,
+                                   'rendered_rows': got_})
+                    break
         for spelled, (t_name, t_alt) in (r.get('spelling_diffs') or {}).items():
             ctx.violation('rendering-depends-on-how-the-dialect-is-named:%s' % spelled,
                           'the renderer built from an alias / a dialect class renders another text than the one built from the dialect\'s name',
@@ -311,12 +344,14 @@ def run(ctx):
     ctx.cov['programs'] = len([r for r in rendered if r['status'] == 'ok'])
     ctx.cov['disagreements_checked'] = len(bad)
     ctx.cov['evaluations'] = len(obs)
+    ctx.cov['engine_differential_executions_outside_semantics'] = n_diff[0]
     ctx.cov['render_status'] = status
     ctx.cov['other_targets_textually_different_from_sqlite_rendering'] = undecided_other
     for r in rendered[::max(1, len(rendered) // 5)]:
         if r['status'] == 'ok':
             ctx.sample({'sql': r['sql'], 'rendered_sqlite': r['rendered']['sqlite']})
-    ctx.assumptions += ['only the sqlite rendering is executed; mysql/postgresql renderings are compared textually with it',
+    ctx.assumptions += ['statements outside the TLA+ semantics (window functions) are judged by sqlite3 itself on four tie-free databases only',
+                        'only the sqlite rendering is executed; mysql/postgresql renderings are compared textually with it',
                         'window functions are outside the reference semantics (not judged)']
     return ctx.finish(exhaustive=False)
 
